@@ -510,29 +510,52 @@ def run_sites(chk: core.Check, n_exact: int, n_float: int) -> None:
 
 
 def inf_percentile_witness(chk: core.Check) -> None:
-    """Known finding F41 (Lean: C13Bridge.percentile_mirror_fails_with_inf): numpy's linear interpolation is not symmetric
-    when a neighbour is infinite - at t = 1/2 between -inf and 0 it answers -inf, between 0 and +inf it answers inf - inf =
-    NaN - so MedianPruner / PercentilePruner decide differently on a history with an infinite report and on its mirror."""
+    """Former finding F41 (fixed: `_get_percentile_intermediate_result_over_trials` computes the MAXIMIZE case as the mirror of the
+    MINIMIZE case, `-np.nanpercentile(-values, percentile)`).  Before the repair numpy's linear interpolation made MedianPruner /
+    PercentilePruner asymmetric on histories with an infinite report (at t = 1/2 between -inf and 0 it answers -inf, between 0 and
+    +inf it answers inf - inf = NaN; Lean: C13Bridge.percentile_mirror_fails_with_inf about `percentilePruneOld`).  Now a plain
+    symmetry check: the old witness first, then seeded histories with +-inf reports; an asymmetric pair is a violation (a revert of
+    the repair is reported concretely by the first pair)."""
     import optuna
 
-    def run(direction: str, sign: float) -> bool:
-        st = optuna.create_study(direction=direction, pruner=optuna.pruners.MedianPruner(n_startup_trials=0, n_warmup_steps=0))
-        for v in (-math.inf, 0.0):
+    def run(direction: str, sign: float, done: list[float], cur: float, q: float) -> bool:
+        pr = optuna.pruners.MedianPruner(n_startup_trials=0, n_warmup_steps=0) if q == 50.0 else \
+            optuna.pruners.PercentilePruner(q, n_startup_trials=0, n_warmup_steps=0)
+        st = optuna.create_study(direction=direction, pruner=pr)
+        for v in done:
             t = st.ask()
             t.report(sign * v, 0)
             st.tell(t, sign * (v if math.isfinite(v) else 1.0))
         t = st.ask()
-        t.report(sign * 5.0, 0)
-        return bool(t.should_prune())
+        t.report(sign * cur, 0)
+        import numpy as np
+        with warnings.catch_warnings(), np.errstate(invalid="ignore"):
+            warnings.simplefilter("ignore")  # numpy's "invalid value encountered" on inf - inf
+            return bool(t.should_prune())
 
-    a, b = run("minimize", 1.0), run("maximize", -1.0)
-    chk.case({"part": "inf-percentile-witness"}, nontrivial=True)
-    chk.count("inf-percentile-witness")
-    chk.extra["witness_inf_percentile"] = {"minimize": a, "maximize_on_negated": b}
-    if a != b:
-        chk.violation({"site": "percentile-inf-interpolation", "level": "witness", "attributed": True}, {"kind": "witness", "which": "inf-percentile"},
-                      "MedianPruner: finished trials reported {-inf, 0} at step 0, the running trial reports 5 under minimize: should_prune() = %s; the mirrored "
-                      "maximize study ({+inf, 0}, -5) answers %s (np.nanpercentile([-inf, 0], 50) = -inf but np.nanpercentile([0, inf], 50) = nan)" % (a, b))
+    r = random.Random(chk.seed * 104729 + 41)
+    pairs: list[tuple[list[float], float, float]] = [([-math.inf, 0.0], 5.0, 50.0), ([0.0, math.inf], -5.0, 50.0), ([-math.inf, 0.0, math.inf], 1.0, 25.0)]
+    for _ in range(40 if chk.tier == "quick" else 400):
+        n = r.randint(2, 6)
+        done = [r.choice([-math.inf, math.inf]) if r.random() < 0.3 else r.randint(-8, 8) / 4.0 for _ in range(n)]
+        pairs.append((done, r.randint(-8, 8) / 4.0, r.choice([25.0, 50.0, 50.0, 75.0, 10.0, 90.0])))
+    outcomes = set()
+    for i, (done, cur, q) in enumerate(pairs):
+        a, b = run("minimize", 1.0, done, cur, q), run("maximize", -1.0, done, cur, q)
+        outcomes.add(a)
+        chk.case({"part": "inf-percentile-symmetry", "done": [str(v) for v in done], "cur": cur, "q": q}, nontrivial=True)
+        chk.count("inf-percentile-symmetry")
+        if i == 0:
+            chk.extra["witness_inf_percentile"] = {"minimize": a, "maximize_on_negated": b}
+        if a != b:
+            chk.violation({"site": "percentile-inf-symmetry", "level": "witness", "attributed": True},
+                          {"kind": "witness", "which": "inf-percentile", "done": [str(v) for v in done], "cur": cur, "q": q},
+                          "Percentile/MedianPruner(q=%s): finished trials reported %s at step 0, the running trial reports %s under minimize: should_prune() = %s; "
+                          "the mirrored maximize study (all values negated) answers %s (np.nanpercentile(v, 100 - q) is not the mirror of np.nanpercentile(-v, q) "
+                          "when a neighbour is infinite: the repair of F41 was reverted?)" % (q, done, cur, a, b))
+            break
+    if len(outcomes) < 2:
+        chk.broke("correspondence", {"site": "percentile-inf-symmetry", "why": "generator degenerate: only one outcome seen"})
 
 
 def replay_witnesses(chk: core.Check) -> None:
@@ -948,7 +971,7 @@ def main(chk: core.Check) -> int:
         if not os.environ.get("C13_DEV_SKIP_SITES"):  # development only: measure what the paired runs find on their own
             run_sites(chk, n_exact=60 if quick else 600, n_float=60 if quick else 600)
         replay_witnesses(chk)
-        inf_percentile_witness(chk)  # F41: +-inf reports and numpy's interpolation
+        inf_percentile_witness(chk)  # former F41: symmetry on histories with +-inf reports
         c13_tpe.correspond(chk, chk.tier)                      # _split_trials pipeline, gamma, weights vs Model/TpeSplit.lean + mirrored runs
         c16_wilcoxon.mirror(chk, 150 if quick else 3000)        # whole WilcoxonPruner.prune: maximize on v = minimize on -v
     except core.DriverBroken as e:
@@ -1046,7 +1069,10 @@ def replay(chk: core.Check, path: str) -> int:
         return 0
     if w.get("kind") == "witness":
         core.ensure_driver()
-        replay_witnesses(chk)
+        if w.get("which") == "inf-percentile":
+            inf_percentile_witness(chk)
+        else:
+            replay_witnesses(chk)
         hits = [v for v in chk.violations] + [h for h in chk.known_hits.values()]
         if hits:
             print("REPRODUCED: " + (hits[0]["message"]))
